@@ -27,8 +27,10 @@ CLAIMED = {
         "under its own seeded schedule, differential oracle against an empty backend",
         "Histories of up to 6 executions with value-changing edits, version bumps, neutral edits, "
         "reverts, raise toggles and argument changes between executions, on fresh or reused "
-        "Scheduler objects; every execution must equal the same program version run on an empty "
-        "backend (value or error type).",
+        "Scheduler objects, plus an input-file family (File passed positionally / by keyword / "
+        "nested / inside a returned expression, ContentFile, Dir) with input rewrites from a "
+        "simulated clock; every execution must equal the same program version and file state run "
+        "on an empty backend (value or error type).",
         SIM_NOTE, "DESIGN.md §4 C02"),
     "C03": (
         "histsim", "fault_enumeration",
@@ -127,7 +129,9 @@ CLAIMED = {
         "checked operation by operation against an executable reference promise",
         "Histories of <= 25 operations over <= 16 promises applied to redun.promise.Promise and a "
         "reference promise written from the statement; states, values and per-promise callback "
-        "sequences are compared after every operation.",
+        "sequences are compared after every operation. One run in four monitors the same "
+        "invariants on every promise the real scheduler creates while running a generated program "
+        "under a seeded completion schedule.",
         "Single-threaded; the reference promise is trusted.", "DESIGN.md §4 C13"),
     "C24": (
         "modelsim", "exploration",
@@ -144,9 +148,12 @@ CLAIMED = {
         "Histories of <= 20 fork / call / merge / rollback operations shaped like the scheduler's "
         "use of handles, against advance_handle / rollback_handle / is_valid_handle on SQLite; "
         "validity of every known state must equal the model's. Extended histories (deriving from "
-        "rolled-back states) are a separate sub-oracle.",
-        "Workflow-level replay of invalidated handles is exercised by C04/C07 programs only "
-        "indirectly.", "DESIGN.md §4 C25"),
+        "rolled-back states) are a separate sub-oracle. One case in four is a workflow-level "
+        "history: a chain of handle-writing tasks run repeatedly under seeded schedules while "
+        "their versions are edited and reverted; a cached result holding a rolled-back state must "
+        "not be replayed.",
+        "The workflow-level part uses linear chains with consumers; forks and merges are "
+        "exercised at backend level only.", "DESIGN.md §4 C25, §11.2"),
     "C12": (
         "schedsim", "exploration",
         "deterministic simulation: seeded schedules over repeated executions on one backend, "
@@ -262,8 +269,9 @@ CLAIMED = {
         "and stale files; results compared with local calls",
         "Jobs are prepared in single and array form with the real scratch helpers, worker nodes "
         "run the real oneshot entry point in a seeded order (some twice), results and errors read "
-        "back must equal a local call, elements must only touch their own files, and job names "
-        "must round-trip their hashes.",
+        "back must equal a local call, elements must only touch their own files, job names must "
+        "round-trip their hashes, and the real gather_inflight_jobs fed with a fake in-flight "
+        "listing must pair evaluation hashes only with the service jobs created for them.",
         "Workers run in-process; no container or cloud service.", "DESIGN.md §4 C32"),
     "C33": (
         "histsim", "exploration",
